@@ -398,6 +398,19 @@ func runC19(ctx *core.Ctx) {
 					}
 				}
 				ctx.Check(lineOK, "B3", "imports.ShouldBuild#line-verdict", okWebVal.Pos(), "a +build line is satisfied only by a matching term (OR over its terms) %s", lwhy)
+				// the line verdict starts false for every +build line: each false leaf arrives under the '+build' test
+				resetOK := false
+				for _, l := range ll {
+					if k, isConst := ssax.ConstBool(l.Val); isConst && !k {
+						if cmpFact(factsOnEdge(sg, l.Pred, l.Phi.Block()), token.EQL, anyVal, isConstStr("+build")) {
+							resetOK = true
+						} else {
+							resetOK = false
+							break
+						}
+					}
+				}
+				ctx.Check(resetOK, "B3", "imports.ShouldBuild#line-verdict-reset", okWebVal.Pos(), "the line verdict is reset to false for each +build line (otherwise one satisfied line satisfies all later ones and lines are no longer ANDed)")
 			}
 		}
 	}
